@@ -96,7 +96,7 @@ for p in sorted(glob.glob(os.path.join(V, "evidence", "C*.json"))):
 
 out.append("""### 7.4 Independent seeded changes (sub-agents given only the property text and a scratch worktree)
 
-Four rounds, one change per property and round; the second- and third-round agents were additionally told the one-line
+Five rounds, one change per property and round; the second- and third-round agents were additionally told the one-line
 descriptions of the earlier changes for their property and asked for a different site and mechanism. Each change was confirmed by
 `tools/verify_seed.sh` (demo passes on HEAD, patch builds, suite 25/25, demo fails with the patch) and run against the checks with
 `tools/run_seed.sh` (apply to /repo, check, `git checkout`); `tools/all_seeds.sh` re-runs all of them against the current checks.
@@ -148,6 +148,25 @@ local); the engine was corrected first, then the change was caught for the right
 string literals of an *inlined* function in the caller's module; module-private globals are now qualified by the module of the
 frame that names them.
 
+Fifth round (20 changes): caught as submitted 12 (c01e, c02e, c04e, c05e, c06e, c08e, c11e, c13e, c14e, c18e, c19e, c20e), c15e by
+C20's read-loop rule, which is now also run under C15. Missed, and the rule each caused: c07e (C07.R8: `array_list_sort`
+evaluated on every list of up to 4 elements over three keys, the comparator answered from the keys: qsort on the whole list, or the
+list is already ordered), c09e (C09.R7: `json_object_deep_copy_recursive` evaluated on scripted arrays and objects with null and
+non-null children - one destination entry per source entry, in order, trailing nulls included), c10e (C10.R7: decision table of
+`json_object_int_inc` over representation x boundary value x boundary increment against exact arithmetic clamped to
+[INT64_MIN, UINT64_MAX]), c12e (C12.R9: every public function of the pointer module that can reach a lookup refuses "a", "ab/c",
+"0"; the printf variants get the string as the result of their `vasprintf`), c16e (C16.X8 repeated with the unrelated
+`VALIDATE_UTF8` bit set), c17e (C17.R4 also with the root being JSON null), c03e (C03.R11: from every configuration inside a
+string, escape or comment, four bytes in one call against the same bytes one per call - status, end, successor configuration
+*and the amount of text appended to the token*; the one-call outcome must be among the byte-per-call outcomes, because the
+byte-per-call side starts each call with the code point under construction unconstrained. The corrected version of the same
+fast path - guard `st_pos == 0` - is a regression mutant that must stay silent).
+
+Across the five rounds (100 changes): 58 were caught by the checks as they stood when the change arrived (25 of 40, 11, 10, 12 per
+round), the others after a rule was added or shared; the miss rate per round did not fall (the agents are told the earlier changes
+and move elsewhere), which is the honest measure of how much of each property a rule set of this kind covers. Every added rule
+was then run against all stored refactorings.
+
 ### 7.5 Behaviour-preserving refactorings (the "never raises an alarm where the property holds" side)
 
 A checker that is exact on today's source but alarms on the same behaviour written differently is a false alarm in waiting, so the
@@ -193,7 +212,7 @@ A third suite, **B3-c04 .. B3-c19** (ten refactorings), was commissioned after t
 functions the newest rules read (the text -> integer helpers, the token -> member-name code of pointer and patch, the print buffer,
 the hash table's insert / lookup / delete / resize, the string set operation, the deep-copy routines, every function that releases
 a field or a global, the number state of the tokener, the member-name ownership of the tokener). What it found is listed with the
-false alarms of 7.2. `tools/par_regress.py` runs the whole regression - unchanged tree, the 50 refactorings x 20 checks, the 80
+false alarms of 7.2. `tools/par_regress.py` runs the whole regression - unchanged tree, the 50 refactorings x 20 checks, the 100
 seeded changes, the ~260 developer mutants - in parallel scratch worktrees with private analysis caches (about 40 minutes on 16
 cores), never touching /repo or /verif/evidence.
 
